@@ -206,6 +206,35 @@ type ConcFinding struct {
 	Schedule []string
 }
 
+type lockSection struct {
+	acq, rel *concEvent
+	write    bool
+}
+
+// lockSecsOf pairs the lock/unlock events of one thread.
+func lockSecsOf(te []*concEvent) []lockSection {
+	var out []lockSection
+	open := map[string][]*concEvent{}
+	for _, ev := range te {
+		switch ev.Kind {
+		case EvLockW, EvLockR:
+			open[ev.Loc] = append(open[ev.Loc], ev)
+		case EvUnlockW, EvUnlockR:
+			if o := open[ev.Loc]; len(o) > 0 {
+				a := o[len(o)-1]
+				open[ev.Loc] = o[:len(o)-1]
+				out = append(out, lockSection{acq: a, rel: ev, write: a.Kind == EvLockW})
+			}
+		}
+	}
+	for _, o := range open {
+		for _, a := range o {
+			out = append(out, lockSection{acq: a, write: a.Kind == EvLockW})
+		}
+	}
+	return out
+}
+
 // analyseThreads runs the race and stuck-state queries over all combinations
 // of event paths. chanInfo gives capacity and initial length per channel key.
 func (e *Exec) analyseThreads(st *State, trs []threadResult, wantRace, wantStuck bool) []ConcFinding {
@@ -537,6 +566,53 @@ func (e *Exec) analyseCombo(st *State, combo []EventPath, wantRace, wantStuck bo
 			e.Res.Discharged++
 		}
 		return r, m
+	}
+	// ---- snapshot structure (no solver needed): all loads by one thread of a location that
+	// another thread stores under a write lock lie inside ONE read/write section of that lock,
+	// so that the thread works on a single registration state
+	if wantRace {
+		for _, l := range storeLocs {
+			for u := range storeBy[l] {
+				// locks the storing thread holds in write mode around its store
+				wlocks := map[string]bool{}
+				for _, sec := range lockSecsOf(perThread[u]) {
+					if !sec.write {
+						continue
+					}
+					for _, ev := range perThread[u] {
+						if ev.Kind == EvStore && locConflict(ev.Loc, l) && ev.idx > sec.acq.idx && (sec.rel == nil || ev.idx < sec.rel.idx) {
+							wlocks[sec.acq.Loc] = true
+						}
+					}
+				}
+				for t, te := range perThread {
+					if t == u {
+						continue
+					}
+					for lock := range wlocks {
+						secIdx := map[int]bool{}
+						for _, ev := range te {
+							if (ev.Kind != EvLoad && ev.Kind != EvStore) || !locConflict(ev.Loc, l) {
+								continue
+							}
+							for si, sec := range lockSecsOf(te) {
+								if sec.acq.Loc == lock && ev.idx > sec.acq.idx && (sec.rel == nil || ev.idx < sec.rel.idx) {
+									secIdx[si] = true
+								}
+							}
+						}
+						if len(secIdx) > 1 {
+							// informational only: reading a location in two critical sections is not by itself
+							// observable (the OPTIONS filter re-reads the service list after routing, but its answer
+							// uses the second read only); reporting it would demand more than C12 states
+							e.Res.Notes[fmt.Sprintf("snapshot structure: a thread reads a location stored under %s in %d separate critical sections", lock, len(secIdx))]++
+						} else if len(secIdx) == 1 {
+							e.Res.Notes["snapshot structure: all reads of a mutated location lie in one critical section"]++
+						}
+					}
+				}
+			}
+		}
 	}
 	// ---- data races: conflicting accesses adjacent in some schedule
 	if wantRace {
